@@ -191,6 +191,47 @@ impl TopicAliasSend {
             .unwrap_or(Self::MIN_ALIAS)
     }
 
+    /// Canonical digest: max, alias->topic in LRU order, topic->aliases sorted by topic,
+    /// free alias intervals (verification hook, read-only).
+    #[cfg(feature = "verif-hooks")]
+    pub fn verif_dump(&self) -> String {
+        use core::fmt::Write;
+        let hex = |t: &str| {
+            let mut h = String::new();
+            for b in t.as_bytes() {
+                let _ = write!(h, "{b:02x}");
+            }
+            h
+        };
+        let mut s = String::new();
+        let _ = write!(s, "{}:", self.max_alias);
+        let mut first = true;
+        for (a, t) in &self.alias_to_topic {
+            let _ = write!(s, "{}{}={}", if first { "" } else { "," }, a, hex(t));
+            first = false;
+        }
+        s.push(';');
+        let mut t2a: Vec<(&String, &Vec<TopicAliasType>)> = self.topic_to_aliases.iter().collect();
+        t2a.sort();
+        first = true;
+        for (t, v) in t2a {
+            let _ = write!(s, "{}{}=", if first { "" } else { "," }, hex(t));
+            let mut f2 = true;
+            for a in v {
+                let _ = write!(s, "{}{}", if f2 { "" } else { "+" }, a);
+                f2 = false;
+            }
+            first = false;
+        }
+        s.push(';');
+        first = true;
+        for (l, h) in self.value_allocator.verif_intervals() {
+            let _ = write!(s, "{}{}-{}", if first { "" } else { "," }, l, h);
+            first = false;
+        }
+        s
+    }
+
     /// Get the maximum alias value
     pub fn max(&self) -> TopicAliasType {
         self.max_alias
